@@ -291,6 +291,12 @@ impl Host {
         loop {
             if let Some(r) = self.take_event_of_set(s) {
                 self.trace.push(json!({"ev": "set.wait", "s": s, "ret": [r.0, r.1, r.2]}));
+                // the host keeps running while the guest is not: further operations may complete before the guest
+                // looks at the set again, so that several events are ready at once (the decider may also idle)
+                let mut extra = 2;
+                while extra > 0 && self.host_step(false) {
+                    extra -= 1;
+                }
                 return r;
             }
             fuel -= 1;
@@ -305,7 +311,8 @@ impl Host {
     // ---------------------------------------------------------------- streams / futures
     pub fn chan_new(&mut self, future: bool, elem: usize) -> (u32, u32) {
         let c = self.chans.len();
-        self.chans.push(Chan { future, elem, ..Default::default() });
+        // values the host peer writes are distinct across channels (and fit a u8 payload)
+        self.chans.push(Chan { future, elem, peer_next: 100 + 20 * (c as u64 % 7), ..Default::default() });
         let r = self.alloc(Entry::End(End { chan: c, write: false, future, state: Copy_::Idle, ptr: 0, n: 0 }));
         let w = self.alloc(Entry::End(End { chan: c, write: true, future, state: Copy_::Idle, ptr: 0, n: 0 }));
         self.chans[c].r = Some(r);
